@@ -464,7 +464,7 @@ func genC04(g *gen) {
 // ---------------------------------------------------------------- C06 (see spec ops xs.* in exec_spec.go)
 
 func genC06(g *gen) {
-	cfgs := [][2]int{{4, 0}, {4, 1}, {4, 2}}
+	cfgs := [][2]int{{4, 0}, {4, 1}, {4, 2}, {10, 0}} // h=10: the stored index crosses a byte boundary (255 → 256)
 	if g.thorough {
 		cfgs = append(cfgs, [2]int{6, 0}, [2]int{6, 1}, [2]int{6, 2}, [2]int{8, 0})
 	}
@@ -488,8 +488,13 @@ func genC06(g *gen) {
 			for i := 0; i < n; i++ {
 				idxs = append(idxs, i)
 			}
+		} else if h == 10 && !g.thorough {
+			idxs = []int{255, 256, 300}
 		} else {
 			idxs = []int{0, 1, n/2 - 1, n / 2, n - 2, n - 1, g.rng.Intn(n), g.rng.Intn(n)}
+			if h == 10 {
+				idxs = append(idxs, 255, 256, 300)
+			}
 		}
 		for _, i := range idxs {
 			msg := g.bytes(g.rng.Intn(33))
@@ -528,7 +533,8 @@ func genC08(g *gen) {
 		}
 		return r
 	}
-	plans := []plan{{4, g.rng.Intn(3), all(16), 16}, {6, 0, []int{0, 1, 15, 16, 31, 32, 47, 48, 62, 63, 64, g.rng.Intn(64)}, 6}, {8, 0, []int{48, 64, 127, 128, 200, g.rng.Intn(256)}, 20}}
+	plans := []plan{{4, g.rng.Intn(3), all(16), 16}, {6, 0, []int{0, 1, 15, 16, 31, 32, 47, 48, 62, 63, 64, g.rng.Intn(64)}, 6}, {8, 0, []int{48, 64, 127, 128, 200, g.rng.Intn(256)}, 20},
+		{10, 0, []int{254, 255, 256}, 4}} // the stored index crosses a byte boundary
 	if g.thorough {
 		plans = []plan{{4, 0, all(16), 16}, {4, 1, all(16), 16}, {4, 2, all(16), 16}, {6, 0, all(64), 10}, {8, 0, []int{20, 48, 63, 64, 65, 127, 128, 192, 200, 254, 255, 256}, 24}, {10, 0, []int{48, 255, 256, 511, 512, 1000}, 24}}
 	}
